@@ -4213,7 +4213,9 @@ impl<'data, P: Platform> ObjectLayoutState<'data, P> {
                     self.section_relax_deltas.get(section_index.0),
                     input_offset,
                 );
-                output_offset + section_address
+                output_offset
+                    .checked_add(section_address)
+                    .context("Symbol value is out of range")?
             } else {
                 match get_merged_string_output_address::<P>(
                     local_symbol_index,
